@@ -317,6 +317,127 @@ def facts(snap, F):
               "children() drops the caller's own pid from the ppid map before looking for children")
 
 
+    # ---- round 3: facts about WHAT sits inside the handlers / tries (total extractors: an unrecognised shape is
+    # ---- returned as text, so the obligation theorem fails with the new value instead of the fact being skipped)
+
+    def _stmts(body):
+        return [ast.unparse(x).replace('"', "'") for x in body
+                if not (isinstance(x, ast.Expr) and isinstance(x.value, ast.Constant))]
+
+    def running_probe():
+        """is_running(): what the try does with the fresh probe `Process(self.pid)`.
+        "compare" = `self._pid_reused = self != Process(self.pid)` straight away;
+        "lenient" = the probe is kept, and when ITS creation time is unknown (AccessDenied swallowed by _init) while
+        the object's own is known the method answers True before comparing; anything else: the statements as text"""
+        fn = fm().get("is_running")
+        if fn is None:
+            return "<no is_running>"
+        tries = [n for n in fn.body if isinstance(n, ast.Try)]
+        if len(tries) != 1:
+            return "<%d try statements>" % len(tries)
+        body = _stmts(tries[0].body)
+        tail = ["if self._pid_reused:\n    _pids_reused.add(self.pid)\n    raise NoSuchProcess(self.pid)", "return True"]
+        if body == ["self._pid_reused = self != Process(self.pid)"] + tail:
+            return "compare"
+        if body == ["other = Process(self.pid)",
+                    "if self._ident[1] is not None and other._ident[1] is None:\n    return True",
+                    "self._pid_reused = self != other"] + tail:
+            return "lenient"
+        return " ;; ".join(body)
+    F.try_add("runningProbe", "String", lambda: extract.lean_str(running_probe()),
+              "psutil.Process.is_running: how the fresh probe Process(self.pid) is compared (compare | lenient | the statements)")
+
+    def asdict_skip():
+        fn = fm().get("as_dict")
+        h = handlers_of(fn) if fn is not None else []
+        if len(h) < 2:
+            return [], "<no second handler>"
+        names, node = h[1]
+        body = _stmts(node.body)
+        if body == ["if attrs:\n    raise", "continue"]:
+            rule = "if attrs: raise; continue"
+        elif body == ["continue"]:
+            rule = "continue"
+        else:
+            rule = " ;; ".join(body)
+        return names, rule
+    F.try_add("asDictSkipCatch", "List String", lambda: lstr(asdict_skip()[0]),
+              "psutil.Process.as_dict: classes of the second handler (a name that is not implemented)")
+    F.try_add("asDictSkipRule", "String", lambda: extract.lean_str(asdict_skip()[1]),
+              "psutil.Process.as_dict: body of the second handler")
+
+    def asdict_ls():
+        """as_dict: `ls = attrs or valid_names` (so attrs=None and attrs=[] both mean every name) and the loop runs
+        inside `with self.oneshot():`"""
+        fn = fm().get("as_dict")
+        if fn is None:
+            return "<no as_dict>"
+        out = []
+        for n in fn.body:
+            if isinstance(n, ast.Assign) and ast.unparse(n.targets[0]) == "ls":
+                out.append(ast.unparse(n))
+            if isinstance(n, ast.With):
+                out.append("with " + ", ".join(ast.unparse(i.context_expr) for i in n.items) + ": "
+                           + " ;; ".join(type(x).__name__ + (" " + ast.unparse(x.iter) if isinstance(x, ast.For) else "") for x in n.body))
+        return " ;; ".join(out)
+    F.try_add("asDictLs", "String", lambda: extract.lean_str(asdict_ls()),
+              "psutil.Process.as_dict: the names iterated and the oneshot() scope of the loop")
+
+    def oneshot_shape():
+        """oneshot(): the caches are deactivated in a `finally` (so an exception inside the block cannot leave them on)"""
+        fn = fm().get("oneshot")
+        if fn is None:
+            return "<no oneshot>"
+        tries = [n for n in ast.walk(fn) if isinstance(n, ast.Try)]
+        if len(tries) != 1:
+            return "<%d try statements>" % len(tries)
+        t = tries[0]
+        ys = [i for i, x in enumerate(t.body) if isinstance(x, ast.Expr) and isinstance(x.value, ast.Yield)]
+        fin = _stmts(t.finalbody)
+        deact = sorted(x for x in fin if "cache_deactivate" in x or "oneshot_exit" in x)
+        if t.handlers or t.orelse:
+            return "<handlers/else on the try>"
+        return "yield@%s/%d finally: %s" % (ys, len(t.body), " ;; ".join(deact))
+    F.try_add("oneshotShape", "String", lambda: extract.lean_str(oneshot_shape()),
+              "psutil.Process.oneshot: position of the yield inside the try and what the finally clause deactivates")
+
+    def try_scopes():
+        """the statements INSIDE each try of the functions whose handlers are modelled (the except classes are separate
+        facts): moving a statement out of / into a try changes the fact"""
+        out = []
+
+        def add(label, fn):
+            if fn is None:
+                out.append((label, ["<missing>"]))
+                return
+            bodies = []
+
+            def visit(node):
+                if isinstance(node, ast.Try):
+                    txt = " ;; ".join(_stmts(node.body))
+                    if node.orelse:
+                        txt += " ;;else;; " + " ;; ".join(_stmts(node.orelse))
+                    if node.finalbody:
+                        txt += " ;;finally"
+                    bodies.append(txt)
+                for c in ast.iter_child_nodes(node):
+                    visit(c)
+            for st in fn.body:
+                visit(st)
+            out.append((label, bodies))
+        for nm in ("children", "parent", "parents", "is_running", "name", "status"):
+            add(nm, fm().get(nm))
+        try:
+            add("ppid_map", extract.find_def(lin, "ppid_map"))
+        except Exception:  # noqa: BLE001
+            out.append(("ppid_map", ["<missing>"]))
+        for nm in ("_is_zombie", "_readlink", "threads", "memory_full_info", "rlimit"):
+            add("_pslinux." + nm, pm().get(nm))
+        return extract.lean_list(out, lambda c: extract.lean_pair(extract.lean_str(c[0]), lstr(c[1])))
+    F.try_add("tryScopes", "List (String × List String)", try_scopes,
+              "per function: the statements inside each try (in source order)")
+
+
 # ------------------------------------------------------------------------------ worlds
 
 FD_KINDS = ("file", "sock", "other", "stale", "infoStale")
